@@ -1,6 +1,7 @@
 """C16: the sorted_definitions key, Name.__eq__/__hash__ fields, the return expressions of
 infer / goto / get_references, which query methods open with reset_recursion_limitations(),
-what that method re-creates, the try/finally switches; the cap of _limit_value_infers."""
+what that method re-creates, the try/finally switches; the cap of _limit_value_infers; where
+jedi/api/strings.py sorts the dict keys it offers as subscript completions."""
 import ast
 from translator.extract import Src, TieBroken, u, lean_list
 
@@ -254,6 +255,109 @@ def _memo_layer(repo, g):
         g.fp(s_, d)
 
 
+# --------------------------------------------------------------------------- dict key completions
+
+def _is_repr_key(call):
+    """sorted(<x>, key=repr) / sorted(<x>, key=lambda x: repr(x)), nothing else (no reverse=)"""
+    if not (isinstance(call, ast.Call) and u(call.func) == 'sorted' and len(call.args) == 1
+            and [k.arg for k in call.keywords] == ['key']):
+        return False
+    key = call.keywords[0].value
+    if isinstance(key, ast.Lambda):
+        a = [x.arg for x in key.args.args]
+        return len(a) == 1 and u(key.body) == 'repr(%s)' % a[0]
+    return u(key) == 'repr'
+
+
+def _dict_keys(repo, g):
+    """WHERE jedi/api/strings.py sorts the dict keys it offers as completions: over the keys of all
+    inferred dicts together (in _completions_for_dicts) and / or per dict (in _get_python_keys); that
+    Completion.complete puts them in front of its result as they come."""
+    strings = Src(repo, 'jedi/api/strings.py')
+    comp = Src(repo, 'jedi/api/completion.py')
+    fn = strings.find('_completions_for_dicts')
+    body = [st for st in fn.body if not (isinstance(st, ast.Expr) and isinstance(st.value, ast.Constant))]
+    loops = [st for st in body if isinstance(st, ast.For)]
+    if len(loops) != 1 or [u(st) for st in body if st is not loops[0]] != ['seen = set()']:
+        raise TieBroken('strings.py: _completions_for_dicts is no longer `seen = set()` + one for loop', u(fn))
+    it = loops[0].iter
+    if u(it) == '_get_python_keys(dicts)':
+        global_sort = False
+    elif _is_repr_key(it) and u(it.args[0]) == '_get_python_keys(dicts)':
+        global_sort = True
+    else:
+        raise TieBroken('strings.py: _completions_for_dicts iterates over something the model does not know', u(it))
+    lb = loops[0].body
+    if not (len(lb) == 2 and u(lb[0]) == 'dict_key_str = _create_repr_string(literal_string, dict_key)'
+            and isinstance(lb[1], ast.If)
+            and u(lb[1].test) == 'dict_key_str.startswith(literal_string) and dict_key_str not in seen'
+            and not lb[1].orelse and u(lb[1].body[0]) == 'seen.add(dict_key_str)'
+            and 'dict_key_str[:-len(cut_end_quote) or None]' in u(lb[1].body[1])
+            and isinstance(lb[1].body[-1], ast.Expr) and isinstance(lb[1].body[-1].value, ast.Yield)):
+        raise TieBroken('strings.py: the loop body of _completions_for_dicts changed', u(loops[0]))
+    g.define('dictKeysGlobalSort', 'Bool', 'true' if global_sort else 'false',
+             'jedi/api/strings.py:_completions_for_dicts - the loop runs over sorted(_get_python_keys(dicts), key=repr) '
+             '(true) or over _get_python_keys(dicts) as it yields (false)')
+
+    fn = strings.find('_get_python_keys')
+    body = [st for st in fn.body if not (isinstance(st, ast.Expr) and isinstance(st.value, ast.Constant))]
+    ok = (len(body) == 1 and isinstance(body[0], ast.For) and u(body[0].target) == 'dct' and u(body[0].iter) == 'dicts'
+          and len(body[0].body) == 1 and isinstance(body[0].body[0], ast.If)
+          and u(body[0].body[0].test) == "dct.array_type == 'dict'" and not body[0].body[0].orelse)
+    if not ok:
+        raise TieBroken("strings.py: _get_python_keys is no longer `for dct in dicts: if dct.array_type == 'dict': ...`", u(fn))
+    inner = [u(st) for st in body[0].body[0].body]
+    GET = 'dict_key = key.get_safe_value(default=_sentinel)'
+    as_yielded = ['for key in dct.get_key_values():\n    %s\n    if dict_key is not _sentinel:\n        yield dict_key' % GET]
+    collected = ['keys = []',
+                 'for key in dct.get_key_values():\n    %s\n    if dict_key is not _sentinel:\n        keys.append(dict_key)' % GET]
+    if inner == as_yielded:
+        per_dict = False
+    elif inner[:2] == collected and len(inner) == 3:
+        last = body[0].body[0].body[2]
+        v = last.value if isinstance(last, ast.Expr) else None
+        if not (isinstance(v, ast.YieldFrom) and _is_repr_key(v.value) and u(v.value.args[0]) == 'keys'):
+            raise TieBroken('strings.py: _get_python_keys hands out the collected keys of a dict in a way the model '
+                            'does not know', inner[2])
+        per_dict = True
+    else:
+        raise TieBroken('strings.py: the body of _get_python_keys changed', repr(inner))
+    g.define('dictKeysPerDictSort', 'Bool', 'true' if per_dict else 'false',
+             'jedi/api/strings.py:_get_python_keys - yields the keys of each dict as get_key_values() gives them (false) '
+             'or as sorted(keys, key=repr) per dict (true)')
+
+    # _create_repr_string / _get_string_prefix_and_quote: the statements the model transcribes
+    fn = strings.find('_create_repr_string')
+    want = ['if not isinstance(dict_key, (str, bytes)) or not literal_string:\n    return repr(dict_key)',
+            'r = repr(dict_key)', 'prefix, quote = _get_string_prefix_and_quote(literal_string)',
+            'if quote is None:\n    return r', 'if quote == r[0]:\n    return prefix + r',
+            'return prefix + quote + r[1:-1] + quote']
+    if [u(st) for st in fn.body] != want:
+        raise TieBroken('strings.py: _create_repr_string changed', u(fn))
+    fn = strings.find('_get_string_prefix_and_quote')
+    pats = [n.args[0].value for n in ast.walk(fn) if isinstance(n, ast.Call) and u(n.func) == 're.match'
+            and isinstance(n.args[0], ast.Constant)]
+    if pats != ['(\\w*)("""|\\\'{3}|"|\\\')']:      # raw string in the source: \' is a quote
+        raise TieBroken('strings.py: the regex of _get_string_prefix_and_quote changed', repr(pats))
+
+    # Completion.complete: the prefixed completions go in front, as they come
+    fn = comp.find('Completion.complete')
+    rets = [n.value for n in fn.body if isinstance(n, ast.Return)]
+    if not (rets and isinstance(rets[-1], ast.BinOp) and isinstance(rets[-1].op, ast.Add)):
+        raise TieBroken('completion.py: Completion.complete no longer returns `<prefixed> + sorted(...)`', u(fn)[-400:])
+    g.define('completeReturnHead', 'String', lean_list([u(rets[-1].left)])[1:-1],
+             'jedi/api/completion.py:Completion.complete - what stands in front of the sorted name completions')
+    assigns = [u(n.value.func) for n in fn.body if isinstance(n, ast.Assign) and u(n.targets[0]) == 'prefixed_completions'
+               and isinstance(n.value, ast.Call)]
+    if assigns != ['complete_dict']:
+        raise TieBroken('completion.py: Completion.complete no longer starts from prefixed_completions = complete_dict(...)',
+                        repr(assigns))
+    for d in ('_completions_for_dicts', '_get_python_keys', '_create_repr_string', '_get_string_prefix_and_quote',
+              'complete_dict'):
+        g.fp(strings, d)
+    g.fp(comp, 'Completion.complete')
+
+
 def generate(repo, g):
     helpers = Src(repo, 'jedi/api/helpers.py')
     classes = Src(repo, 'jedi/api/classes.py')
@@ -407,6 +511,7 @@ def generate(repo, g):
     g.define('nodeCapBuiltinFactor', 'Nat', str(factor), 'jedi/inference/syntax_tree.py:_limit_value_infers')
 
     _memo_layer(repo, g)
+    _dict_keys(repo, g)
 
     for s, d in [(helpers, 'sorted_definitions'), (classes, 'Name.__eq__'), (classes, 'Name.__hash__'),
                  (api, 'Script.infer'), (api, 'Script.goto'), (api, 'Script.get_references'),
